@@ -442,7 +442,7 @@ def sample(ctx, budget=1.0, hint=None, broken=None):
             kinds.append(kind)
         allroots = simple + [e for e in extras if e not in simple]
         r.shuffle(allroots)
-        coeffs = np.real(np.poly(allroots)) * r.choice([1.0, -2.5, 1e3])
+        coeffs = np.real(np.poly(allroots)) * r.choice([1.0, -2.5, 1e3, 1e-9, -3e-12, 5e-9, 1e-15, 1e12])      # the roots do not depend on an overall factor
         n_eval += 1
         nontriv.add(('roots', len(simple), tuple(sorted(kinds))))
         try:
